@@ -635,9 +635,9 @@ end example2
 section murmur
 open USyn
 
-/-- (the DEFAULT value of the seed is free: the theorems below hold for every seed) -/
-theorem gen_murmur_as_modelled :
-    GenPack.murmur = { murmurAsModelled with defaultSeed := GenPack.murmur.defaultSeed } := by decide
+/-- (the default value of the seed, `GenPack.murmurDefaultSeed`, is not part of the term: the
+    theorems below hold for every seed) -/
+theorem gen_murmur_as_modelled : GenPack.murmur = murmurAsModelled := by decide
 
 /-- the translated `hash128` computes the model `Vita.Murmur.hash128` (the one the other
     properties execute) on EVERY message and seed: block loop = `body`, tail switch = `tailStep`
